@@ -45,6 +45,7 @@ from explorerscript.ssb_converting.ssb_data_types import (
     SsbOpParamPositionMarker,
     SsbOpParamFixedPoint,
 )
+from explorerscript.ssb_converting.ssb_special_ops import OPS_WITH_JUMP_TO_MEM_OFFSET
 from explorerscript.util import open_utf8
 
 
@@ -65,12 +66,33 @@ class RoutineDict(TypedDict):
     ops: list[OpDict]
 
 
-def build_ops(ops: list[SsbOperation]) -> list[OpDict]:
+def build_offset_mapping(routine_ops: list[list[SsbOperation]]) -> dict[int, int]:
+    """
+    The JSON does not contain the compiler's internal offsets (which have gaps where jumps were optimized away):
+    the offset of an operation is its position in the list of all operations of all routines, starting at 1.
+    Returns the mapping from internal offsets to these positions.
+    """
+    mapping: dict[int, int] = {}
+    for ops in routine_ops:
+        for op in ops:
+            mapping[op.offset] = len(mapping) + 1
+    return mapping
+
+
+def build_ops(ops: list[SsbOperation], offset_mapping: dict[int, int] | None = None) -> list[OpDict]:
     out_ops: list[OpDict] = []
     for op in ops:
         out_op: OpDict = {"opcode": op.op_code.name, "params": []}
-        for param in op.params:
-            if isinstance(param, int):
+        for param_idx, param in enumerate(op.params):
+            if (
+                offset_mapping is not None
+                and op.op_code.name in OPS_WITH_JUMP_TO_MEM_OFFSET
+                and param_idx == len(op.params) - 1
+                and isinstance(param, int)
+            ):
+                # The jump target: translate to the position of the target operation.
+                out_op["params"].append(offset_mapping[param])
+            elif isinstance(param, int):
                 out_op["params"].append(param)
             elif isinstance(param, SsbOpParamFixedPoint):
                 out_op["params"].append({"type": "FIXED_POINT", "value": param.value})
@@ -94,29 +116,30 @@ def build_routines_json(
     routine_infos: list[SsbRoutineInfo], named_coroutines: list[str], routine_ops: list[list[SsbOperation]]
 ) -> list[RoutineDict]:
     routines: list[RoutineDict] = []
+    offset_mapping = build_offset_mapping(routine_ops)
     for info, name, ops in zip(routine_infos, named_coroutines, routine_ops):
         routine: RoutineDict
         if info.type == SsbRoutineType.COROUTINE:
-            routine = {"type": "COROUTINE", "name": name, "ops": build_ops(ops)}
+            routine = {"type": "COROUTINE", "name": name, "ops": build_ops(ops, offset_mapping)}
         elif info.type == SsbRoutineType.GENERIC:
-            routine = {"type": "GENERIC", "ops": build_ops(ops)}
+            routine = {"type": "GENERIC", "ops": build_ops(ops, offset_mapping)}
         elif info.type == SsbRoutineType.ACTOR:
             routine = {
                 "type": "ACTOR",
                 "target_id": info.linked_to if info.linked_to is not -1 else info.linked_to_name,
-                "ops": build_ops(ops),
+                "ops": build_ops(ops, offset_mapping),
             }
         elif info.type == SsbRoutineType.OBJECT:
             routine = {
                 "type": "OBJECT",
                 "target_id": info.linked_to if info.linked_to is not -1 else info.linked_to_name,
-                "ops": build_ops(ops),
+                "ops": build_ops(ops, offset_mapping),
             }
         elif info.type == SsbRoutineType.PERFORMER:
             routine = {
                 "type": "PERFORMER",
                 "target_id": info.linked_to if info.linked_to is not -1 else info.linked_to_name,
-                "ops": build_ops(ops),
+                "ops": build_ops(ops, offset_mapping),
             }
         else:
             raise ValueError(f"invalid routine type {info.type}")
@@ -183,6 +206,8 @@ if __name__ == "__main__":
     }
 
     if args.source_map is not None:
+        # The source map has to refer to the same offsets as the JSON.
+        compiler.source_map.rewrite_offsets(build_offset_mapping(compiler.routine_ops))
         with open_utf8(args.source_map, "w") as f:
             f.write(compiler.source_map.serialize())
 
